@@ -582,7 +582,7 @@ def c09(tier, seed):
     try:
         cases = select_cases(tier, seed, ("flat", "blocks"), 20, 300)
         if tier == "quick" and not common.replay_cases():
-            always = [c for c in cases if set(c.get("tags", [])) & {"leftover", "crossed-derived", "weighted-derived-level"}]
+            always = [c for c in cases if set(c.get("tags", [])) & {"leftover", "crossed-derived", "weighted-derived-level", "preamble2"}]
             rest = [c for c in cases if c not in always]
             cases = always + random.Random(seed + 9).sample(rest, min(len(rest), 120))      # a seeded subset per quick run
         for batch in batches(cases):
